@@ -132,12 +132,16 @@ class TableOps:
                     # an explicit `remaining != 0` / `remaining > 0` test on the value that is written back
                     nonzero = any(h[0] == "cmp" and h[2] == v and is_const(h[3], 0) and ((h[1] == "Ne" and h[4]) or (h[1] == "Eq" and not h[4]) or (h[1] == "Gt" and h[4]) or (h[1] == "Le" and not h[4])) for h in st.flags)
                 how = [f[3] for f in st.flags if f[0] == "subamt" and f[1] == g]
-                # `if count > n { insert(k, count - n) } else { remove(k) }`
-                if v[0] == "bin" and v[1] in ("Sub", "SubUnchecked"):
-                    cnt_, n_ = v[2], v[3]
+                # `if count > n { insert(k, count - n) } else { remove(k) }`, or the open-coded checked_sub
+                # `if count >= n { NonZero::new(count - n) -> Some(r) => insert(k, r.get()) }`
+                v2, nz_known = unwrap_nonzero(v)
+                if v2[0] == "bin" and v2[1] in ("Sub", "SubUnchecked"):
+                    cnt_, n_ = v2[2], v2[3]
                     guarded = any(h[0] == "cmp" and ((h[1] == "Gt" and h[2] == cnt_ and h[3] == n_ and h[4]) or (h[1] == "Lt" and h[2] == n_ and h[3] == cnt_ and h[4])
                                                      or (h[1] == "Le" and h[2] == cnt_ and h[3] == n_ and not h[4]) or (h[1] == "Ge" and h[2] == n_ and h[3] == cnt_ and not h[4])) for h in st.flags)
-                    if guarded:
+                    weakly = any(h[0] == "cmp" and ((h[1] == "Ge" and h[2] == cnt_ and h[3] == n_ and h[4]) or (h[1] == "Le" and h[2] == n_ and h[3] == cnt_ and h[4])
+                                                    or (h[1] == "Lt" and h[2] == cnt_ and h[3] == n_ and not h[4]) or (h[1] == "Gt" and h[2] == n_ and h[3] == cnt_ and not h[4])) for h in st.flags)
+                    if guarded or (weakly and (nz_known or nonzero)):
                         self.sites["sub"].add(ev.b)
                         return add(st, ("top", "sub", tb, kind, target, n_))
                 if not nonzero:
@@ -295,6 +299,16 @@ class TableOps:
                     return True
         return False
 
+    @staticmethod
+    def _difference_is_zero(st, cnt, n):
+        """`NonZero::new(cnt - n)` is known to be None on this path."""
+        for e, v in st.var:
+            if v == "0" and e[0] == "call" and e[2].startswith("core::num::NonZero") and e[2].endswith("::new") and e[3]:
+                d = e[3][0]
+                if d[0] == "bin" and d[1] in ("Sub", "SubUnchecked") and d[2] == cnt and d[3] == n:
+                    return True
+        return False
+
     def _amount(self, st, tb, key):
         # the lookup of this key is known to have found nothing: the removal is vacuous
         for e, v in st.var:
@@ -317,10 +331,15 @@ class TableOps:
                 g = _tbl_get_in(x)
                 gy = _tbl_get_in(y)
                 if g is not None and table_of(g[3][0]) == tb and _same_key(g[3][1], key):
-                    if (op == "Gt" and not truth) or (op == "Le" and truth):
+                    if (op == "Gt" and not truth) or (op == "Le" and truth) or (op == "Lt" and truth) or (op == "Ge" and not truth):
+                        return y
+                    # count >= n and `NonZero::new(count - n)` is None: count == n
+                    if ((op == "Ge" and truth) or (op == "Lt" and not truth)) and self._difference_is_zero(st, x, y):
                         return y
                 if gy is not None and table_of(gy[3][0]) == tb and _same_key(gy[3][1], key):
-                    if (op == "Lt" and not truth) or (op == "Ge" and truth):
+                    if (op == "Lt" and not truth) or (op == "Ge" and truth) or (op == "Gt" and truth) or (op == "Le" and not truth):
+                        return x
+                    if ((op == "Le" and truth) or (op == "Gt" and not truth)) and self._difference_is_zero(st, y, x):
                         return x
         return None
 
@@ -619,9 +638,13 @@ class ApiSpec:
 
     def on_counter_test(self, eng, st, box, field, op, c, truth, b):
         if field == "weak":
-            if (op == "Eq" and c == "1" and truth) or (op == "Ne" and c == "1" and not truth):
+            # whatever way the test is spelled (`== 1`, `< 2`, `!(> 1)`, weak_count() `< 1` ...): the values it admits.
+            # A live strong handle implies weak >= 1 (the implicit weak), so {0, 1} means 1.
+            from interp import classes_for
+            cls = classes_for(op, c, truth)
+            if "O" in cls and cls <= frozenset("ZO"):
                 return add(st, ("w1", box))
-            if (op == "Eq" and c == "1" and not truth) or (op == "Ne" and c == "1" and truth):
+            if "O" not in cls:
                 return add(st, ("wne1", box))
         return None
 
